@@ -37,13 +37,13 @@ RpcOf(c) == [name |-> "M", verb |-> c.verb, fields |-> Fields(c), pathVars |-> I
                        ELSE <<[field |-> "q", name |-> "q", required |-> FALSE], [field |-> "rq", name |-> "rq", required |-> TRUE]>>]
 ValOf(c) == [i \in DOMAIN Fields(c) |-> [k |-> Fields(c)[i], v |-> "V_" \o Fields(c)[i]]]
 CallOf(c) == [rpc |-> RpcOf(c), value |-> ValOf(c), zero |-> [i \in DOMAIN Fields(c) |-> [k |-> Fields(c)[i], v |-> "Z_" \o Fields(c)[i]]],
-              ctype |-> c.ctype, resp |-> "RESP", handler |-> c.handler]
+              ctype |-> c.ctype, resp |-> "RESP", handler |-> c.handler, hdrs |-> <<>>]
 
 Init == fv \in Family /\ cpc = "idle" /\ call = [none |-> TRUE] /\ sentOK = FALSE
 MStart == cpc = "idle" /\ Start(CallOf(fv)) /\ (Export => PrintT(<<"CASE", ToJson(fv)>>)) /\ UNCHANGED fv
 \* the contract client: identity on tokens
 ContractSent == [verb |-> call.rpc.verb, litsOK |-> TRUE, pathVals |-> call.value, hasBody |-> BodyVerb(call.rpc.verb),
-                 bodyDecodes |-> TRUE, bodyVals |-> call.value, ctype |-> call.ctype, queryVals |-> call.value]
+                 bodyDecodes |-> TRUE, bodyVals |-> call.value, ctype |-> call.ctype, queryVals |-> call.value, hdrVals |-> call.hdrs]
 MSent == cpc = "called" /\ Sent(ContractSent) /\ UNCHANGED fv
 MSaw == cpc = "sent" /\ Saw([rpc |-> call.rpc.name, vals |-> call.value]) /\ UNCHANGED fv
 MRet == cpc = "dispatched" /\ Ret([kind |-> "ok", val |-> call.resp, message |-> ""]) /\ UNCHANGED fv
